@@ -11,4 +11,7 @@ func init() {
 	if !have["RunTest+full"] {
 		targets["simul/build.go"] = append(targets["simul/build.go"], "RunTest+full")
 	}
+	// the proxied path (seeded change C19r6-B): who takes an endpoint out of the rotation, and when
+	targets["simul/monitor/tcpproxy.go"] = append(targets["simul/monitor/tcpproxy.go"], "TCPProxy.serve+full", "remote.inactivate+full", "remote.tryReactivate+full")
+	targets["simul/monitor/proxy.go"] = append(targets["simul/monitor/proxy.go"], "NewProxy+full")
 }
